@@ -408,6 +408,17 @@ def rule_deletion_flags(rep):
             if name in REVIEWED_DELETERS and not aware:
                 rep.ob("R4-deletion-accounts-for-flag-registers", name, True, rel, f["l"], "reviewed: " + REVIEWED_DELETERS[name])
                 continue
+            if aware:
+                # the decision must not be taken from the op that merely follows in the list (it may be a label or a jump; F16)
+                adj = []
+                for st_ in [x for x in tab.walk(body) if x.get("k") in ("Let", "Assign", "If")]:
+                    sub = list(tab.walk(st_))
+                    if any(y.get("k") == "MethodCall" and y["method"] == "def_const_registers" for y in sub) and \
+                            any(y.get("k") == "MethodCall" and y["method"] in ("peek", "windows", "next_if", "nth") for y in sub):
+                        adj.append(st_["l"])
+                rep.ob("R4-flag-check-follows-control-flow", name, not adj, rel, adj[0] if adj else f["l"],
+                       f"{name} decides whether a deleted instruction's write of $of/$err is observed by looking at the op that follows it in the list "
+                       "(peek / windows); the next op executed can be behind a jump or a label, so the check has to come from a control-flow-aware analysis")
             rep.ob("R4-deletion-accounts-for-flag-registers", name, aware, rel, dels[0][0],
                    f"{name} deletes instructions from the instruction list ({', '.join(d for _, d in dels)}) without consulting def_const_registers(): every ALU "
                    "instruction, MOVE and NOOP included, resets $of/$err, so deleting one (instead of overwriting it with NOOP) changes what a following "
